@@ -52,6 +52,21 @@ def nonherm(n):
     return A
 
 
+def nonherm_component(n, comp):
+    """Hermitian matrix plus an O(1) defect that lives in ONE quaternion component only
+    (comp 0: asymmetric scalar part; comp 1..3: symmetric i/j/k part, or a non-real diagonal entry for n = 1)."""
+    A = herm(n)
+    if n == 1:
+        A[0, 0, max(comp, 1)] += 1.0
+        return A
+    if comp == 0:
+        A[0, n - 1, 0] += 1.0
+    else:
+        A[0, n - 1, comp] += 0.75
+        A[n - 1, 0, comp] += 0.75  # symmetric vector part: violates antisymmetry of that component only
+    return A
+
+
 def spd_tall(m, n):
     """well conditioned m x n (m>=n): identity block plus small fill."""
     A = gen(m, n) * 0.05
@@ -135,6 +150,7 @@ def build_cells(lib):
     inn("power_iteration", "rank0", u.power_iteration, Q(np.zeros((2, 2, 4))), return_eigenvalue=True)
     out("power_iteration_nonhermitian", "non_square", u.power_iteration_nonhermitian, Q(gen(2, 3)))
     out("power_iteration_nonhermitian", "unknown_option_axis", u.power_iteration_nonhermitian, Q(gen(2, 2)), subfield_axis="y")
+    out("power_iteration_nonhermitian", "unknown_option_axis_hermitian_input", u.power_iteration_nonhermitian, Q(herm(2)), subfield_axis="y")
     out("power_iteration_nonhermitian", "unknown_option_format", u.power_iteration_nonhermitian, Q(gen(2, 2)), eigenvalue_format="polar")
     inn("power_iteration_nonhermitian", "boundary_1x1", u.power_iteration_nonhermitian, Q(gen(1, 1)))
     inn("power_iteration_nonhermitian", "hermitian_2x2", u.power_iteration_nonhermitian, Q(herm(2)))
@@ -151,11 +167,20 @@ def build_cells(lib):
         out(nm, "non_square", f, Q(gen(2, 3)))
         out(nm, "non_hermitian", f, Q(nonherm(3)))
         out(nm, "non_hermitian_2x2", f, Q(nonherm(2)))
+        for comp in range(4):
+            for nn in (1, 2, 3):
+                if nn == 1 and comp == 0:
+                    continue
+                out(nm, f"non_hermitian_component{comp}_n{nn}", f, Q(nonherm_component(nn, comp)))
         inn(nm, "boundary_1x1", f, Q(herm(1)))
         inn(nm, "rank0", f, Q(np.zeros((3, 3, 4))))
     out("tridiagonalize", "non_square", TR.tridiagonalize, Q(gen(2, 3)))
     out("tridiagonalize", "non_hermitian", TR.tridiagonalize, Q(nonherm(3)))
     out("tridiagonalize", "too_small_1x1", TR.tridiagonalize, Q(herm(1)))
+    for comp in range(4):
+        for nn in (2, 3):
+            out("tridiagonalize", f"non_hermitian_component{comp}_n{nn}", TR.tridiagonalize, Q(nonherm_component(nn, comp)))
+            out("det", f"non_hermitian_Moore_component{comp}_n{nn}", u.det, Q(nonherm_component(nn, comp)), "Moore")
     inn("tridiagonalize", "boundary_2x2", TR.tridiagonalize, Q(herm(2)))
     inn("tridiagonalize", "rank0", TR.tridiagonalize, Q(np.zeros((3, 3, 4))))
     out("hessenbergize", "non_square", HS.hessenbergize, Q(gen(2, 3)))
@@ -213,6 +238,13 @@ def build_cells(lib):
         out("tensor_fold", f"wrong_mode_for_matrix_mode{mode}", t.tensor_fold, M.copy(), (mode + 1) % 3, (2, 3, 4))
         inn("tensor_fold", f"in_domain_mode{mode}", t.tensor_fold, M.copy(), mode, (2, 3, 4))
     out("tensor_fold", "unknown_option_mode", t.tensor_fold, t.tensor_unfold(T, 0), 3, (2, 3, 4))
+    for mode in range(3):
+        dims = (2, 3, 4)
+        lead = dims[mode]
+        out("tensor_fold", f"matrix_not_2d_3d_mode{mode}", t.tensor_fold, np.moveaxis(T, mode, 0).copy(), mode, dims)
+        out("tensor_fold", f"matrix_not_2d_4d_mode{mode}", t.tensor_fold, np.moveaxis(T, mode, 0).reshape(lead, 2, -1, 1).copy(), mode, dims)
+        out("tensor_fold", f"matrix_transposed_mode{mode}", t.tensor_fold, t.tensor_unfold(T, mode).T.copy(), mode, dims)
+    out("tensor_fold", "matrix_1d", t.tensor_fold, T.reshape(-1)[:4].copy(), 2, (1, 1, 4))
     # ---------------- qslst
     img = np.arange(3 * 4 * 4, dtype=float).reshape(3, 4, 4) / 10
     psf = np.array([[0.0, 0.25, 0.0], [0.25, 0.0, 0.25], [0.0, 0.25, 0.0]])
@@ -236,6 +268,7 @@ def build_cells(lib):
     out("QGMRESSolver.solve", "non_square", lambda A, b: sv.QGMRESSolver().solve(A, b), Q(gen(3, 2)), Q(b3))
     out("QGMRESSolver.solve", "non_square_wide", lambda A, b: sv.QGMRESSolver().solve(A, b), Q(gen(2, 3)), Q(gen(2, 1)))
     out("QGMRESSolver.solve", "non_square_left_lu", lambda A, b: sv.QGMRESSolver(preconditioner="left_lu").solve(A, b), Q(gen(3, 2)), Q(b3))
+    out("QGMRESSolver.solve", "non_square_wide_left_lu", lambda A, b: sv.QGMRESSolver(preconditioner="left_lu").solve(A, b), Q(gen(3, 5)), Q(b3))
     out("QGMRESSolver.solve", "mismatched_rhs_short", lambda A, b: sv.QGMRESSolver().solve(A, b), Q(A33), Q(gen(2, 1)))
     out("QGMRESSolver.solve", "mismatched_rhs_scalar", lambda A, b: sv.QGMRESSolver().solve(A, b), Q(A33), Q(gen(1, 1)))
     out("QGMRESSolver.solve", "mismatched_rhs_long", lambda A, b: sv.QGMRESSolver().solve(A, b), Q(A33), Q(gen(4, 1)))
